@@ -131,10 +131,9 @@ def h_penalty(e, mnems, dcfg, icfg):
         e.site_bounds["process_ecall"] = progs.ECALL_SITE_BOUND
     pd, pi = e.int("penalty_d", 0, 1000), e.int("penalty_i", 0, 1000)
     items, fields = progs.build_program(e, mnems)
-    c5 = mk_riscv(e, mode="five_stage_pipeline", dcache=cache_options(True, dib, dbb, dways, kind, drepl, 0), icache=cache_options(True, iib, ibb, iways, "wb", irepl, 0))
+    # the penalties travel through the public configuration path (CacheOptions -> constructor)
+    c5 = mk_riscv(e, mode="five_stage_pipeline", dcache=cache_options(True, dib, dbb, dways, kind, drepl, pd), icache=cache_options(True, iib, ibb, iways, "wb", irepl, pi))
     st = c5.sim.state
-    st.memory.miss_penality = pd
-    st.instruction_memory.miss_penality = pi
     place_instructions(e, c5, items)
     pm, dm, im = st.performance_metrics, st.memory, st.instruction_memory
     last = {"cycles": 0, "dm": 0, "im": 0}
